@@ -12,6 +12,7 @@ package sym
 
 import (
 	"fmt"
+	"math/big"
 	"os"
 	"go/token"
 	"go/types"
@@ -83,6 +84,50 @@ func init() {
 		sb.G = e.S.And(sb.G, done)
 		e.adoptMerged(st, sa, sb, nil, nil)
 		return nil
+	}
+	// fmt.Sscanf for formats made of literal text and %d verbs, on concrete (possibly conditional) input: evaluated
+	// with the real fmt.Sscanf per alternative, results stored through the *int arguments
+	stubs["fmt.Sscanf"] = func(e *Exec, st *State, fn *ssa.Function, args []Val, where string) Val {
+		format, ok := e.concStr(args[1])
+		if !ok || strings.Count(format, "%") != strings.Count(format, "%d") {
+			panic(&UnsupportedErr{Msg: "fmt.Sscanf: only concrete formats with %d verbs are modelled at " + where})
+		}
+		targets := e.sliceElemsOrNil(st, args[2], where)
+		var ptrs []*Ptr
+		for _, t := range targets {
+			iv, ok := t.(*IfaceV)
+			if !ok {
+				panic(&UnsupportedErr{Msg: "fmt.Sscanf: target at " + where})
+			}
+			p, ok := iv.V.(*Ptr)
+			if !ok || p.Obj == 0 {
+				panic(&UnsupportedErr{Msg: "fmt.Sscanf: target is not a pointer at " + where})
+			}
+			ptrs = append(ptrs, p)
+		}
+		it := types.Typ[types.Int]
+		res := e.strMapC(args[0], e.S.True, func(x *StrV, cond *Term) Val {
+			if x.Sym != nil || x.Segs != nil {
+				panic(&UnsupportedErr{Msg: "fmt.Sscanf on a symbolic text at " + where})
+			}
+			vals := make([]int, len(ptrs))
+			ifs := make([]interface{}, len(ptrs))
+			for i := range vals {
+				ifs[i] = &vals[i]
+			}
+			n, err := fmt.Sscanf(x.Conc, format, ifs...)
+			for i := 0; i < n && i < len(ptrs); i++ {
+				old := e.load(st, ptrs[i], where)
+				nv := e.F.IntConst(big.NewInt(int64(vals[i])), it)
+				e.store(st, ptrs[i], e.mergeVal(cond, nv, old), where)
+			}
+			var ev Val = &IfaceV{}
+			if err != nil {
+				ev = e.mkError(&StrV{Conc: err.Error()})
+			}
+			return TupleV{e.F.IntConst(big.NewInt(int64(n)), it), ev}
+		})
+		return res
 	}
 	stubs["(*sync.Pool).Put"] = func(e *Exec, st *State, fn *ssa.Function, args []Val, where string) Val {
 		p := e.ptr(st, args[0], where)
